@@ -1107,3 +1107,105 @@ func ruleSyncSendBlocking(r *Run) {
 		r.check(nBlocking >= 1, "repo:sync-sends-blocking", fmt.Sprintf("%d sends of sync messages, all blocking", nBlocking), "no send of a sync message found: rule needs review", "-")
 	}
 }
+
+// ---------------------------------------------------------------------------------------------
+// R14.10 — the down-res pass of a voxel mutation runs inside the mutation's critical section
+
+func init() {
+	register(ruleDef{ID: "R14.10", Prop: "C14", Tier: "quick", Floor: 2,
+		Title: "lower levels are computed from a stable level 0: a function that serialises voxel mutations with the instance's voxel mutex calls downres.Mutation.Execute while it still holds that mutex (the pass is an unlocked read-modify-write of parent blocks; two of them at once lose octants)",
+		Fn:    ruleDownresUnderVoxelLock})
+}
+
+func ruleDownresUnderVoxelLock(r *Run) {
+	w := r.W
+	n := 0
+	for _, f := range w.RepoFuncs {
+		if len(f.Blocks) == 0 || f.Parent() != nil || !strings.HasPrefix(relPkg(pkgPathOf(f)), "datatype/") || strings.HasSuffix(w.fposFile(f), "_test.go") {
+			continue
+		}
+		locks := false
+		for _, b := range f.Blocks {
+			for _, in := range b.Instrs {
+				if op, ok := asLockOp(in); ok && op.lock && op.write && op.name == "voxelMu" {
+					locks = true
+				}
+			}
+		}
+		if !locks {
+			continue
+		}
+		k := 0
+		for _, c := range calls(f) {
+			if _, isDefer := c.(*ssa.Defer); isDefer {
+				continue
+			}
+			cal := staticCallee(c)
+			if cal == nil || cal.Name() != "Execute" || relPkg(pkgPathOf(cal)) != "datatype/common/downres" {
+				continue
+			}
+			n++
+			k++
+			held, _ := heldAt(f, c, "voxelMu", true)
+			r.check(held, fmt.Sprintf("%s:Execute#%d:under-voxelMu", fname(f), k), "the down-res pass runs with the voxel mutex held",
+				"the function releases the voxel mutex before running the down-res pass: concurrent voxel writes to sibling blocks then rebuild the same parent blocks at once and each overwrites the other's octants, so lower levels no longer follow from level 0", w.pos(c.Pos()))
+		}
+	}
+	r.check(n >= 2, "datatype:downres-passes-in-voxel-sections", fmt.Sprintf("%d down-res passes in functions that take the voxel mutex", n), "too few: rule needs review", "-")
+}
+
+// ---------------------------------------------------------------------------------------------
+// R11.19 — work on one block always goes to the same worker
+
+func init() {
+	register(ruleDef{ID: "R11.19", Prop: "C11", Tier: "quick", Floor: 2,
+		Title: "block work keeps its worker: where block operations are handed to one of several worker channels, the channel is chosen by a hash of the block's coordinate (that affinity is what serialises concurrent rewrites of one block), never by position in a list",
+		Fn:    ruleWorkerAffinity})
+}
+
+func ruleWorkerAffinity(r *Run) {
+	w := r.W
+	n := 0
+	for _, f := range w.RepoFuncs {
+		if len(f.Blocks) == 0 || strings.HasSuffix(w.fposFile(f), "_test.go") || !strings.HasPrefix(relPkg(pkgPathOf(f)), "datatype/") {
+			continue
+		}
+		k := 0
+		for _, b := range f.Blocks {
+			for _, in := range b.Instrs {
+				snd, ok := in.(*ssa.Send)
+				if !ok {
+					continue
+				}
+				// the channel is an element of an array / slice of channels
+				var idx ssa.Value
+				switch x := snd.Chan.(type) {
+				case *ssa.UnOp:
+					if ia, ok := x.X.(*ssa.IndexAddr); ok {
+						idx = ia.Index
+					}
+				case *ssa.Index:
+					idx = x.Index
+				}
+				if idx == nil {
+					continue
+				}
+				if _, isK := idx.(*ssa.Const); isK {
+					continue
+				}
+				// only block work: the message carries a block coordinate somewhere
+				n++
+				k++
+				hashed := false
+				for d := range dataDeps(idx) {
+					if c, ok := d.(*ssa.Call); ok && methodNameOf(c) == "Hash" {
+						hashed = true
+					}
+				}
+				r.check(hashed, fmt.Sprintf("%s:worker-send#%d:chosen-by-block-hash", fname(f), k), "the worker is chosen by Hash() of the block coordinate",
+					"a block operation is handed to a worker chosen by something other than the hash of its block coordinate: two concurrent mutations that touch the same block can then rewrite it from two workers at once, and one rewrite is lost", w.pos(snd.Pos()))
+			}
+		}
+	}
+	r.check(n >= 2, "datatype:worker-channel-sends", fmt.Sprintf("%d sends on indexed worker channels", n), "too few: rule needs review", "-")
+}
